@@ -72,7 +72,14 @@ func liftThrough(p *core.Prog, t *core.Term, site *ssa.Call) *core.Term {
 
 // liftWithEnv rewrites a callee term into the caller's vocabulary using the caller's evaluator for one of its paths.
 func liftWithEnv(env *core.Env, t *core.Term, site *ssa.Call) *core.Term {
-	callee := site.Common().StaticCallee()
+	return liftWithEnvTo(env, t, site, site.Common().StaticCallee())
+}
+
+// liftWithEnvTo is liftWithEnv for a call whose callee is not static (a function value that the call graph resolves).
+func liftWithEnvTo(env *core.Env, t *core.Term, site *ssa.Call, callee *ssa.Function) *core.Term {
+	if callee == nil {
+		return t
+	}
 	args := site.Common().Args
 	repl := map[string]*core.Term{}
 	for i, prm := range callee.Params {
@@ -100,6 +107,76 @@ func liftWithEnv(env *core.Env, t *core.Term, site *ssa.Call) *core.Term {
 		}
 		return nil
 	})
+}
+
+// link is one step of a call chain: the call and the callee it is followed into (static, or resolved by the call graph when the
+// call goes through a function value such as `build := v6; if is4 { build = v4 }; build(...)`).
+type link struct {
+	site   *ssa.Call
+	callee *ssa.Function
+}
+
+func callChainsX(p *core.Prog, root, fn *ssa.Function) [][]link {
+	var out [][]link
+	var cur []link
+	seen := map[*ssa.Function]bool{}
+	cg := p.CallGraph()
+	var dfs func(g *ssa.Function)
+	dfs = func(g *ssa.Function) {
+		if g == fn {
+			out = append(out, append([]link(nil), cur...))
+			return
+		}
+		if seen[g] || len(cur) > 5 {
+			return
+		}
+		seen[g] = true
+		for _, b := range g.Blocks {
+			for _, in := range b.Instrs {
+				call, ok := in.(*ssa.Call)
+				if !ok || call.Common().IsInvoke() {
+					continue
+				}
+				var cals []*ssa.Function
+				if sc := call.Common().StaticCallee(); sc != nil {
+					cals = []*ssa.Function{sc}
+				} else if n := cg.Nodes[g]; n != nil {
+					for _, oe := range n.Out {
+						if oe.Site == ssa.CallInstruction(call) && oe.Callee.Func != nil {
+							cals = append(cals, oe.Callee.Func)
+						}
+					}
+				}
+				for _, cal := range cals {
+					if !core.InModule(cal) {
+						continue
+					}
+					cur = append(cur, link{call, cal})
+					dfs(cal)
+					cur = cur[:len(cur)-1]
+				}
+			}
+		}
+		seen[g] = false
+	}
+	dfs(root)
+	return out
+}
+
+func liftChainX(p *core.Prog, t *core.Term, chain []link) *core.Term {
+	for i := len(chain) - 1; i >= 0; i-- {
+		site := chain[i].site
+		caller := site.Parent()
+		paths, _ := core.EnumPaths(caller, site.Block(), 200)
+		for _, pa := range paths {
+			e := core.NewEnv(p, pa)
+			if core.Feasible(e.Atoms()) {
+				t = liftWithEnvTo(e, t, site, chain[i].callee)
+				break
+			}
+		}
+	}
+	return t
 }
 
 func liftChain(p *core.Prog, t *core.Term, chain []*ssa.Call) *core.Term {
@@ -196,6 +273,20 @@ func injective(t *core.Term) (bool, string) {
 		}
 		return false, "operator " + t.Name + " on the ttl is not injective: " + t.String()
 	}
+	// a field of / a result of a module helper's (possibly struct-valued, possibly dynamically selected) result
+	if c06prog != nil && (t.Op == "field" || t.Op == "extract") {
+		if alts := projectCallResult(c06prog, t); len(alts) > 0 {
+			for _, a := range alts {
+				if a.why != "" {
+					return false, a.why
+				}
+				if ok, why := injective(a.t); !ok {
+					return false, why
+				}
+			}
+			return true, ""
+		}
+	}
 	// a module helper: every return path must be injective in the ttl it is given, and which path is taken must not depend on the ttl
 	if t.Op == "call" && c06prog != nil {
 		if g := c06prog.Func(t.Name); g != nil && len(g.Blocks) > 0 && len(g.Params) == len(t.Args) {
@@ -271,13 +362,13 @@ func runC06(c *Ctx) {
 								ll.fields[st.Field(i).Name()] = fv
 							}
 						}
-						chains := callChains(c.P, root, f)
+						chains := callChainsX(c.P, root, f)
 						if f == root {
-							chains = [][]*ssa.Call{nil}
+							chains = [][]link{nil}
 						}
 						for name, fv := range ll.fields {
 							for _, ch := range chains {
-								ll.lifted[name] = append(ll.lifted[name], liftChain(c.P, fv, ch))
+								ll.lifted[name] = append(ll.lifted[name], liftChainX(c.P, fv, ch))
 							}
 						}
 						lits = append(lits, ll)
@@ -366,7 +457,7 @@ func runC06(c *Ctx) {
 					if roles.Variant == "syn" {
 						t = synDefaultID(c, d, lt)
 						if t == nil {
-							R.Fail("R06.4", key+"/id", pos, fn, "IP-ID of the SYN probe ("+lt.String()+") is not getNextPacketIDAndSeqNum's first result")
+							R.Fail("R06.4", key+"/id", pos, fn, "IP-ID of the SYN probe ("+lt.String()+") is not the first result of the driver's (IP-ID, sequence number) allocation method")
 							continue
 						}
 					}
@@ -397,11 +488,11 @@ func runC06(c *Ctx) {
 
 // synDefaultID maps `getNextPacketIDAndSeqNum(recv, ttl)#0` to that function's default-mode result.
 func synDefaultID(c *Ctx, d Driver, lt *core.Term) *core.Term {
-	if lt.Op != "extract" || lt.Name != "0" || !isCallToSuffix(lt.Args[0], ".getNextPacketIDAndSeqNum") {
+	g := synIDFunc(c, d)
+	if g == nil || lt.Op != "extract" || lt.Name != "0" || lt.Args[0].Op != "call" {
 		return nil
 	}
-	g := c.P.Func("(*" + d.Name + ").getNextPacketIDAndSeqNum")
-	if g == nil {
+	if site, ok := lt.Args[0].Val.(*ssa.Call); !ok || site.Common().StaticCallee() != g {
 		return nil
 	}
 	rps, _ := core.ReturnPaths(c.P, g, 100)
@@ -510,6 +601,35 @@ func checkSerialize(c *Ctx, d Driver, tree []*ssa.Function) {
 								for _, r3 := range *bo.Referrers() {
 									if _, ok := r3.(*ssa.If); ok {
 										tested = true
+									}
+								}
+							}
+						}
+					}
+				}
+				// the binding may sit in a helper that receives the transport layer as a parameter: resolve every
+				// SetNetworkLayerForChecksum call of the tree back to the literal it is applied to
+				for _, g := range tree {
+					for _, gb := range g.Blocks {
+						for _, gin := range gb.Instrs {
+							cl, ok := gin.(*ssa.Call)
+							if !ok || cl.Common().StaticCallee() == nil || cl.Common().StaticCallee().Name() != "SetNetworkLayerForChecksum" || len(cl.Common().Args) != 2 {
+								continue
+							}
+							// the method is promoted from an embedded struct: the receiver is &layer.tcpipchecksum
+							rootv, _ := addrRootFields(cl.Common().Args[0])
+							if rootv == nil || c.P.DefX(rootv) != ssa.Value(al) {
+								continue
+							}
+							if mi, ok := cl.Common().Args[1].(*ssa.MakeInterface); ok && strings.HasPrefix(layerKind(mi.X.Type()), "IPv") {
+								okc = true
+							}
+							for _, r2 := range *cl.Referrers() {
+								if bo, ok := r2.(*ssa.BinOp); ok {
+									for _, r3 := range *bo.Referrers() {
+										if _, ok := r3.(*ssa.If); ok {
+											tested = true
+										}
 									}
 								}
 							}
@@ -956,4 +1076,99 @@ func isExtractOfCallTo(v ssa.Value, f *ssa.Function) bool {
 // derived quantity such as "time until the k-th slot", which lets probes catch up after a slow send.
 func isSendDelayField(term string) bool {
 	return strings.HasSuffix(term, ".SendDelay") && !strings.ContainsAny(term, "(+-*/")
+}
+
+// synIDFunc finds, by role instead of by name, the method of the SYN driver that hands out a probe's (IP-ID, sequence number)
+// pair: the only function in SendProbe's tree inside the driver's package that returns (uint16, uint32).
+func synIDFunc(c *Ctx, d Driver) *ssa.Function {
+	var found *ssa.Function
+	for _, g := range ModReach(c.P, d.SendProbe) {
+		if core.ShortPkg(core.FuncPkg(g)) != d.Pkg {
+			continue
+		}
+		res := g.Signature.Results()
+		if res.Len() != 2 {
+			continue
+		}
+		b0, ok0 := res.At(0).Type().Underlying().(*types.Basic)
+		b1, ok1 := res.At(1).Type().Underlying().(*types.Basic)
+		if ok0 && ok1 && b0.Kind() == types.Uint16 && b1.Kind() == types.Uint32 {
+			if found != nil {
+				return nil
+			}
+			found = g
+		}
+	}
+	return found
+}
+
+type altTerm struct {
+	t   *core.Term
+	why string
+}
+
+// projectCallResult resolves  call(...)#i  and  call(...)#i.field  (static callee, or `dyn(func:F, args...)`) to the value each
+// return path of the callee yields for it, parameters replaced by the arguments. A path selected by a test on the ttl is reported.
+func projectCallResult(p *core.Prog, t *core.Term) []altTerm {
+	field := ""
+	x := t
+	if x.Op == "field" && len(x.Args) == 1 {
+		field, x = x.Name, x.Args[0]
+	}
+	idx := 0
+	if x.Op == "extract" && len(x.Args) == 1 {
+		fmt.Sscan(x.Name, &idx)
+		x = x.Args[0]
+	} else if field == "" {
+		return nil
+	}
+	if x.Op != "call" {
+		return nil
+	}
+	var g *ssa.Function
+	args := x.Args
+	if x.Name == "dyn" && len(args) > 0 && args[0].Op == "func" {
+		g = p.Func(args[0].Name)
+		args = args[1:]
+	} else {
+		g = p.Func(x.Name)
+	}
+	if g == nil || len(g.Blocks) == 0 || len(g.Params) != len(args) {
+		return nil
+	}
+	rps, ok := core.ReturnPaths(p, g, 500)
+	if !ok || len(rps) == 0 {
+		return nil
+	}
+	sub := func(z *core.Term) *core.Term {
+		if z.Op == "param" {
+			for i, pa := range g.Params {
+				if pa.Name() == z.Name {
+					return args[i]
+				}
+			}
+		}
+		return nil
+	}
+	var out []altTerm
+	for _, rp := range rps {
+		if !core.Feasible(rp.Atoms) || rp.Ret.Block().Comment == "recover" || idx >= len(rp.Results) {
+			continue
+		}
+		// error returns of (value, error) helpers carry no identifier
+		if n := len(rp.Results); n >= 2 && isErrorType(g.Signature.Results().At(n-1).Type()) && !rp.Results[n-1].IsConst("nil") {
+			continue
+		}
+		for _, a := range rp.Atoms {
+			if mentionsTTL(a.Cond.Subst(sub)) {
+				out = append(out, altTerm{why: "helper " + core.FuncName(g) + " selects its result by a test on the ttl (" + a.String() + "): two ttls can be mapped to one identifier"})
+			}
+		}
+		r := rp.Results[idx]
+		if field != "" {
+			r = core.ProjField(r, field)
+		}
+		out = append(out, altTerm{t: r.Subst(sub)})
+	}
+	return out
 }
